@@ -490,3 +490,88 @@ func Scratch(prefix string) (string, func()) {
 	}
 	return d, func() { os.RemoveAll(d) }
 }
+
+// ---------------------------------------------------------------- child runs
+
+type exported struct {
+	Evals        int64                  `json:"evals"`
+	Bulk         int64                  `json:"bulk"`
+	Distinct     []uint64               `json:"distinct"`
+	Samples      []any                  `json:"samples"`
+	Counters     map[string]int64       `json:"counters"`
+	Viol         map[string][]Violation `json:"viol"`
+	Inconclusive map[string]int64       `json:"inconclusive"`
+	IncSamples   []any                  `json:"inc_samples"`
+	Extra        map[string]any         `json:"extra"`
+}
+
+// ExportFile writes the state collected by a child process.
+func (r *Run) ExportFile(path string) error {
+	r.mu.Lock()
+	defer r.mu.Unlock()
+	e := exported{Evals: r.evals, Bulk: r.bulkDistinct, Samples: r.samples, Counters: r.counters, Viol: r.viol, Inconclusive: r.inconclusive, IncSamples: r.incSamples, Extra: r.extra}
+	for h := range r.distinct {
+		e.Distinct = append(e.Distinct, h)
+	}
+	b, err := json.Marshal(e)
+	if err != nil {
+		return err
+	}
+	return os.WriteFile(path, b, 0o644)
+}
+
+// MergeFile adds what a child process collected.
+func (r *Run) MergeFile(path string) error {
+	b, err := os.ReadFile(path)
+	if err != nil {
+		return err
+	}
+	var e exported
+	if err := json.Unmarshal(b, &e); err != nil {
+		return err
+	}
+	r.mu.Lock()
+	defer r.mu.Unlock()
+	r.evals += e.Evals
+	r.bulkDistinct += e.Bulk
+	for _, h := range e.Distinct {
+		r.distinct[h] = struct{}{}
+	}
+	for _, s := range e.Samples {
+		if len(r.samples) < r.maxSamples {
+			r.samples = append(r.samples, s)
+		}
+	}
+	for k, v := range e.Counters {
+		r.counters[k] += v
+	}
+	sigs := make([]string, 0, len(e.Viol))
+	for s := range e.Viol {
+		sigs = append(sigs, s)
+	}
+	sort.Strings(sigs)
+	for _, s := range sigs {
+		if _, ok := r.viol[s]; !ok {
+			r.violOrder = append(r.violOrder, s)
+		}
+		for _, v := range e.Viol[s] {
+			if len(r.viol[s]) < 5 {
+				r.viol[s] = append(r.viol[s], v)
+			}
+		}
+	}
+	for k, v := range e.Inconclusive {
+		r.inconclusive[k] += v
+	}
+	for _, s := range e.IncSamples {
+		if len(r.incSamples) < 10 {
+			r.incSamples = append(r.incSamples, s)
+		}
+	}
+	for k, v := range e.Extra {
+		if _, ok := r.extra[k]; !ok {
+			r.extra[k] = v
+		}
+	}
+	return nil
+}
